@@ -124,9 +124,12 @@ def _settle(rt):
         rt.run_until_idle()
 
 
-def _run_op(fs, rt, sid, op, arg=None):
+def _run_op(fs, rt, sid, op, arg=None, settle=True):
     """one client operation with a client object freshly loaded from the file system.
-    returns (outcome, new_sid): outcome = 'ok' | 'error:<Type>' | 'hang'"""
+    returns (outcome, new_sid): outcome = 'ok' | 'error:<Type>' | 'hang'
+    settle=False: the server's cleanup delays of closed connections are NOT awaited afterwards (the next operation
+    arrives 'quickly'); a pending delay expires only when nothing else can run.
+    op 'searches': arg is a list of keywords, all searched through this one client object / connection."""
     CV = FE.FIX["mods"][4]
     svc = CV.Service(sid)
     new_sid = sid
@@ -149,9 +152,21 @@ def _run_op(fs, rt, sid, op, arg=None):
                 r = svc.sse_module_loader.SSEResult.deserialize(fut.result(), svc.config_object)
                 WORLD["results"].append((arg, r.get_result_list()))
             await svc.handle_keyword_search(arg, wait=True, wait_callback_func=cb)
+        elif op == "searches":
+            for w in arg:
+                def cb(fut, w=w):
+                    r = svc.sse_module_loader.SSEResult.deserialize(fut.result(), svc.config_object)
+                    WORLD["results"].append((w, r.get_result_list()))
+                await svc.handle_keyword_search(w, wait=True, wait_callback_func=cb)
         await svc.close_service()
     t = rt.create_task(go())
     rt.run_until_idle()
+    for _ in range(8):                   # blocked behind a cleanup delay: time passes
+        pend = rt.pending_sleeps()
+        if t.done_ or not pend:
+            break
+        pend[0].set_result()
+        rt.run_until_idle()
     if not t.done_:
         out = "hang"
         for (cws, sws, task) in WORLD["conns"]:
@@ -165,7 +180,8 @@ def _run_op(fs, rt, sid, op, arg=None):
         ack = res.get("ack")
         if isinstance(ack, dict) and not ack.get("ok", False):
             out = "refused-by-server"
-    _settle(rt)
+    if settle:
+        _settle(rt)
     WORLD["conns"][:] = []
     return out, new_sid
 
